@@ -132,8 +132,10 @@ def _bs_cases(rng, thorough):
                 if not all(lo <= k <= hi for k in kv):
                     continue  # breakpoints must lie within the bounds (they may coincide with them)
             x = list(tv)
-            if tname.startswith("random") and rng.random() < 0.3:
-                x.insert(rng.randint(0, len(x)), float("nan"))
+            if tname.startswith("random") and rot % 2 == 0:
+                # nulls in the TRAINING vector (every other configuration): knots from the non-null values, other rows unaffected
+                x.insert(len(x) // 3, float("nan"))
+                x.insert(0, float("nan"))
             cfg = {"degree": degree, "include_intercept": icpt, "extrapolation": mode,
                    "df": sval if skind == "df" else None,
                    "knots": _affine(kv, a, s) if skind == "knots" else None,
@@ -176,8 +178,9 @@ def _cubic_cases(rng, thorough):
                 if nf < 1:
                     continue  # no columns
             x = list(tv)
-            if not centred and tname.startswith("random") and rng.random() < 0.3:
-                x.insert(rng.randint(0, len(x)), float("nan"))
+            if tname.startswith("random") and (si + list(CUBIC_BOUNDS).index(bname) + cyclic) % 2 == 0:
+                x.insert(len(x) // 3, float("nan"))  # nulls in the training vector (also with the centering constraint)
+                x.insert(0, float("nan"))
             cfg = {"cyclic": cyclic, "extrapolation": mode, "constraints": "center" if centred else None,
                    "df": sval if skind == "df" else None,
                    "knots": _affine(sval, a, s) if skind == "knots" else None,
@@ -220,7 +223,17 @@ def _worker(args):
         res.case(key, True, {"transform": which if which == "bs" else ("cc" if cfg["cyclic"] else "cr"),
                              "cfg": {k: v for k, v in cfg.items() if v is not None}, "n_train": len(c["x"]),
                              "n_grid": len(c["grid"])})
-        for clause, cls, detail in judge(c["x"], c["grid"], cfg):
+        try:
+            verdicts = judge(c["x"], c["grid"], cfg)
+        except Exception as e:  # noqa: BLE001
+            # The judge runs the transform and then feeds what it recorded / returned to the exact oracles.  An exception
+            # here means the oracle could not be applied to the library's output (e.g. a non-numeric state); it is recorded
+            # as a violation of the values clause (the witness re-runs the judge and fails the same way) and never kills
+            # the pool.
+            name = "bs" if which == "bs" else ("cc" if cfg["cyclic"] else "cr")
+            verdicts = [(f"C12.{name}.values", f"oracle-not-applicable:{type(e).__name__}",
+                         f"judging raised {type(e).__name__}: {e}"[:500])]
+        for clause, cls, detail in verdicts:
             if clause.startswith("note:"):
                 res.stats[("note", clause[5:] + "/" + cls)] += 1
                 continue
